@@ -38,6 +38,7 @@ def enumerated_history(chk, rng, plan, offset, hi):
     events = []
     fresh = fresh_factory()
     pending = []
+    followups = []
     n = len(plan)
     for pos, d in enumerate(plan):
         cls = FAULT_CLASSES[(pos + offset) % len(FAULT_CLASSES)]
@@ -53,11 +54,21 @@ def enumerated_history(chk, rng, plan, offset, hi):
                 "last" if pos == n - 1 else "middle"
             events.append(("fault", f))
             pending.extend(f.new_syms)
+            if f.followup is not None:
+                followups.append(f.followup)
         try:
             d.apply(w)
         except (Rejected, OutOfDomain, KeyError):
             continue
         events.append(("decl", d))
+        if followups and rng.random() < 0.7:
+            fd = followups.pop(0)
+            try:
+                fd.apply(w)
+                fd.reuse = True
+                events.append(("decl", fd))
+            except (Rejected, OutOfDomain, KeyError):
+                pass
         if pending and rng.random() < 0.4:
             sym = pending.pop(0)
             lin = [t for t in w.types.values() if t.has_ref]
@@ -255,6 +266,12 @@ def bad_spec(rng, base):
         ("unknown-currency-code", ["t", [["s", "ZZZ"], ["D", "1.5"],
                                          ["i", 1]]]),
         ("malformed-spec", ["t", [U(rng.choice(other)), ["D", "1.5"]]]),
+        ("currency-none", ["t", [["none"], ["D", "1.5"], ["i", 1]]]),
+        ("currency-not-money", ["t", [U("kg"), ["D", "1.5"], ["i", 1]]]),
+        ("amount-none", ["t", [U(rng.choice(other)), ["none"], ["i", 1]]]),
+        ("multiple-none", ["t", [U(rng.choice(other)), ["D", "1.5"],
+                                 ["none"]]]),
+        ("spec-not-a-sequence", ["i", 5]),
     ])
 
 
@@ -313,7 +330,15 @@ def converter_case(chk, rng, i):
                 else:
                     specs.insert(max(1, len(specs) // 2), bs)
                 cls = "bad-rate-spec:%s@%s" % (name, pos)
-                e = M(V("mc"), "update", KINDS[kind], ["l", specs])
+                fk = kind
+                if not had_valid:
+                    # nothing accepted yet: the attempt may use any kind and
+                    # must not fix it
+                    fk = rng.choice(list(KINDS))
+                    if fk != kind:
+                        cls = "bad-rate-spec-first-update-other-kind:%s@%s" \
+                            % (name, pos)
+                e = M(V("mc"), "update", KINDS[fk], ["l", specs])
             steps.extend(lookups(k + ".before"))
             steps.append({"k": k, "e": e})
             steps.extend(lookups(k + ".after"))
@@ -387,6 +412,8 @@ def run(chk, R, tier, seed):
     chk.require("symbol re-use after rejection")
     for cls, _ in CUR_FAULTS:
         chk.require("rejected|currency:" + cls)
+    chk.require("rejected|converter:bad-rate-spec-first-update-other-kind"
+                "@first")
     for c in ("invalid-validity", "mixed-kind", "bad-rate-spec@first",
               "bad-rate-spec@middle", "bad-rate-spec@last"):
         chk.require("rejected|converter:" + c)
